@@ -8,7 +8,7 @@ WT=/tmp/verify-$$
 git -C /repo worktree add -q $WT HEAD || exit 2
 cp $D/zz_seed_demo_test.go $WT/jsonschema/
 ( cd $WT && go test -vet=off -count=1 -run TestSeedDemo ./jsonschema/ >/tmp/sc.$$ 2>&1; echo "demo_without_change: $(tail -1 /tmp/sc.$$)" )
-if ! git -C $WT apply $D/patch.diff; then echo "PATCH DOES NOT APPLY"; git -C /repo worktree remove --force $WT; exit 2; fi
+if ! git -C $WT apply $D/patch.diff 2>/dev/null && ! git -C $WT apply --3way $D/patch.diff; then echo "PATCH DOES NOT APPLY"; git -C /repo worktree remove --force $WT; exit 2; fi
 ( cd $WT && go build -tags verif ./... && echo "builds with -tags verif: ok" )
 ( cd $WT && go test -vet=off -count=1 -skip TestSeedDemo ./... 2>&1 | tail -1 | sed 's/^/suite_with_change: /' )
 ( cd $WT && go test -vet=off -count=1 -run TestSeedDemo ./jsonschema/ >/tmp/sc.$$ 2>&1; echo "demo_with_change: $(tail -1 /tmp/sc.$$)" )
